@@ -2,13 +2,13 @@
 # try_wt.sh <patch.diff> <Cnn> [tier]: apply a seeded change to the private worktree /tmp/wt/mine, run the check
 # against it (VERIF_REPO), undo the change.  /repo itself is never touched.
 P=$1; ID=$2; T=${3:-quick}
-W=/tmp/wt/mine
-[ -d $W ] || /root/wt/mkwt.sh mine >/dev/null 2>&1
+WT=${WT:-mine}; W=/tmp/wt/$WT
+[ -d $W ] || /root/wt/mkwt.sh $WT >/dev/null 2>&1
 git -C $W reset -q --hard $(git -C /repo rev-parse HEAD)
 if ! git -C $W apply --check "$P" 2>/dev/null; then echo "PATCH DOES NOT APPLY: $P"; exit 9; fi
 git -C $W apply "$P"
-mkdir -p /tmp/try_evidence; cd /verif && VERIF_EVIDENCE_DIR=/tmp/try_evidence VERIF_REPO=$W timeout 1800 ./check $ID --tier $T > /tmp/try_$ID.out 2>&1
+mkdir -p /tmp/try_evidence_$WT; cd /verif && VERIF_EVIDENCE_DIR=/tmp/try_evidence_$WT VERIF_REPO=$W timeout 1800 ./check $ID --tier $T > /tmp/try_${WT}_$ID.out 2>&1
 rc=$?
 git -C $W reset -q --hard
-grep -E "VIOLATION|MACHINERY|KNOWN" /tmp/try_$ID.out | head -3 | cut -c1-300
+grep -E "VIOLATION|MACHINERY|KNOWN" /tmp/try_${WT}_$ID.out | head -3 | cut -c1-300
 echo "rc=$rc"
